@@ -30,17 +30,41 @@ def pool_names(sort, exclude, n):
 INNER = {"KAnti": True, "KAmp": True, "KSym": True, "KNonSym": False}
 
 
-def canon_tensor(a):
+ANTI = {"KAnti": True, "KAmp": True, "KSym": False, "KNonSym": False}
+
+
+def _sort_par(seq):
+    seq = list(seq)
+    par = 0
+    for i in range(len(seq)):
+        for j in range(len(seq) - 1 - i):
+            if seq[j].key > seq[j + 1].key:
+                seq[j], seq[j + 1] = seq[j + 1], seq[j]
+                par ^= 1
+    return tuple(seq), par
+
+
+def canon_tensor_sign(a):
+    """(canonical tensor, sign) mirroring ADC.Core.Canon.canon_tens"""
     _, kind, name, bks, up, lo = a
+    sign = 1
     if INNER[kind]:
-        up = tuple(sorted(up, key=lambda i: i.key))
-        lo = tuple(sorted(lo, key=lambda i: i.key))
+        up, p1 = _sort_par(up)
+        lo, p2 = _sort_par(lo)
+        if ANTI[kind] and (p1 ^ p2):
+            sign = -1
         if bks in (1, -1) and len(up) == len(lo):
-            ku = [i.key for i in up]
-            kl = [i.key for i in lo]
+            ku = [x for i in up for x in i.key]
+            kl = [x for i in lo for x in i.key]
             if kl < ku:
                 up, lo = lo, up
-    return ("T", kind, name, bks, up, lo)
+                if bks == -1:
+                    sign = -sign
+    return ("T", kind, name, bks, tuple(up), tuple(lo)), sign
+
+
+def canon_tensor(a):
+    return canon_tensor_sign(a)[0]
 
 
 def atom_sortkey(a):
@@ -58,25 +82,53 @@ def atom_sortkey(a):
                                for c, ts in a[1]])
 
 
-def canon_atom(a):
+def canon_atom_sign(a):
     if a[0] == "T":
-        return canon_tensor(a)
+        return canon_tensor_sign(a)
     if a[0] == "D":
         i, j = sorted([a[1], a[2]], key=lambda x: x.key)
-        return ("D", i, j)
+        return ("D", i, j), 1
     if a[0] == "P":
         terms = []
         for c, ts in a[1]:
-            ts = sorted((canon_tensor(t) for t in ts), key=atom_sortkey)
-            terms.append((abs(c), tuple(ts)))
+            sg = 1
+            cts = []
+            for t in ts:
+                ct, s1 = canon_tensor_sign(t)
+                sg *= s1
+                cts.append(ct)
+            cts.sort(key=atom_sortkey)
+            terms.append((c * sg, tuple(cts)))
         terms.sort(key=lambda ct: [atom_sortkey(t) for t in ct[1]])
-        return ("P", tuple(terms))
-    return a
+        sign = 1
+        if terms and terms[0][0] < 0:
+            sign = -1
+            terms = [(-c, ts) for c, ts in terms]
+        return ("P", tuple(terms)), sign
+    return a, 1
+
+
+def canon_atom(a):
+    return canon_atom_sign(a)[0]
+
+
+def _poly_key(a):
+    return (4, len(a[1]), [(c, [atom_sortkey(t) for t in ts])
+                           for c, ts in a[1]])
+
+
+def canon_key_sign(term):
+    sign = 1
+    keys = []
+    for a, inv in term[1]:
+        ca, s1 = canon_atom_sign(a)
+        sign *= s1
+        keys.append((inv, _poly_key(ca) if ca[0] == "P" else atom_sortkey(ca)))
+    return sorted(keys), sign
 
 
 def canon_key(term):
-    facs = [(canon_atom(a), inv) for a, inv in term[1]]
-    return sorted(((inv,) + (atom_sortkey(a),)) for a, inv in facs)
+    return canon_key_sign(term)[0]
 
 
 # ---- colour refinement --------------------------------------------------
@@ -168,18 +220,21 @@ def canonical_relabel(term, tg, cap=3000):
         n = sum(len(g) for g in glist)
         pool = pool_names(sort, tgs, n)
         per_sort.append((pool, list(orders_for(glist, full))))
+    best_sign, other = 1, None
     for combo in itertools.product(*(o for _, o in per_sort)):
         m = {}
         for (pool, _), order in zip(per_sort, combo):
             flat = [x for g in order for x in g]
             for x, p in zip(flat, pool):
                 m[x] = p
-        key = canon_key(rename_term(term, m))
+        key, sg = canon_key_sign(rename_term(term, m))
         if best is None or key < best:
-            best, best_map = key, m
+            best, best_map, best_sign, other = key, m, sg, None
+        elif key == best and sg != best_sign and other is None:
+            other = m     # same canonical monomial with the opposite sign
     if best_map is None:
         best_map = {}
-    return best_map, full
+    return best_map, full, other
 
 
 def map_to_swaps(m, universe):
@@ -203,19 +258,71 @@ def map_to_swaps(m, universe):
     return swaps
 
 
-def term_cert(term, tg):
-    m, full = canonical_relabel(term, tg)
+def py_elim(term, x, y):
+    """mirror of ADC.Core.DeltaRule.elim_delta on pyterms (no checks)"""
+    c, facs = term
+    out, removed = [], False
+    for a, inv in facs:
+        if not removed and a[0] == "D" and not inv and \
+                {a[1], a[2]} == {x, y} and a[1] != a[2]:
+            removed = True
+            continue
+        out.append((a, inv))
+    out = [(rename_atom(a, {x: y}), inv) for a, inv in out]
+    out = [(a, inv) for a, inv in out
+           if not (a[0] == "D" and not inv and a[1] == a[2])]
+    return (c, out)
+
+
+def find_delta_elims(term, tg):
+    """greedy list of delta eliminations (x contracted, replaced by y)"""
+    tgs = set(tg)
+    elims = []
+    progress = True
+    while progress:
+        progress = False
+        for a, inv in term[1]:
+            if a[0] != "D" or inv or a[1] == a[2] or a[1].sort != a[2].sort:
+                continue
+            for x, y in ((a[1], a[2]), (a[2], a[1])):
+                if x in tgs:
+                    continue
+                new = py_elim(term, x, y)
+                con_old = set(term_contracted(term, tgs))
+                con_new = set(term_contracted(new, tgs))
+                if con_new == con_old - {x} and (y in tgs or y in con_old):
+                    elims.append((x, y))
+                    term = new
+                    progress = True
+                    break
+            if progress:
+                break
+    return elims, term
+
+
+def term_cert(term, tg, deltas=False):
+    elims = []
+    if deltas:
+        elims, term = find_delta_elims(term, tg)
+    m, full, other = canonical_relabel(term, tg)
     universe = []
     for i in term_indices(term):
         if i not in universe:
             universe.append(i)
-    return [(Fraction(1), map_to_swaps(m, universe))], full
+    if other is not None:
+        ws = [(Fraction(1, 2), map_to_swaps(m, universe)),
+              (Fraction(1, 2), map_to_swaps(other, universe))]
+    else:
+        ws = [(Fraction(1), map_to_swaps(m, universe))]
+    if deltas:
+        return (elims, ws), full
+    return ws, full
 
 
-def expr_cert(e, tg):
+def expr_cert(e, tg, deltas=False):
     certs, allfull = [], True
     for t in e:
-        c, full = term_cert(t, tg)
+        c, full = term_cert(t, tg, deltas)
         certs.append(c)
         allfull = allfull and full
     return certs, allfull
